@@ -369,7 +369,7 @@ func c09fGenSpec(r *vfRand, base *c09fSpec) c09fSpec {
 			}
 		}
 		if r.Chance(1, 3) {
-			u.Methods = [][]string{{"GET"}, {"POST"}, {"GET", "POST"}}[r.Intn(3)]
+			u.Methods = [][]string{{"GET"}, {"POST"}, {"GET", "POST"}, {"POST", "GET"}, {"PUT", "POST", "GET"}, {"PUT", "GET"}}[r.Intn(6)]
 		}
 		if r.Chance(1, 2) {
 			u.Ref = s.Policies[r.Intn(np)].Name
